@@ -5,7 +5,7 @@
 From Coq Require Import ZArith FMapPositive.
 From Flocq Require Import IEEE754.BinarySingleNaN.
 From MW Require Import Model.Base Model.F64 Model.Num Model.Datum Model.TransformDef
-  Model.VmTypes Model.Heap.
+  Model.VmTypes Model.Heap Model.VmBase.
 Open Scope N_scope.
 
 (* ===================================================================== gc.rs *)
@@ -269,10 +269,6 @@ Definition collect (vd fuel : nat) (order : list N) (v : vm) : out heap :=
   do m <- mark_roots vd fuel order v (gcmap (hp v));
   sweep (set_gcmap (hp v) m).
 
-Definition with_hp (v : vm) (h : heap) : vm :=
-  mk_vm h (st v) (g_bind v) (g_slots v) (stack v) (sp v) (bp v) (ep v) (ip v) (acc v)
-        (out_log v) (last_trace v).
-
 (* [forced] = the verification hook bypasses the first utilisation test *)
 Definition vm_run_gc_with (prof : profile) (forced : bool) (order : list N) (v : vm) : out vm :=
   do u <- used_size prof (hp v);
@@ -282,8 +278,8 @@ Definition vm_run_gc_with (prof : profile) (forced : bool) (order : list N) (v :
     do h1 <- collect (store_depth (st v)) fuel order v;
     do u1 <- used_size prof h1;
     if f64_ltb f64_three_quarters (utilisation u1 (hlen h1))
-    then Ok (with_hp v (heap_grow h1))
-    else Ok (with_hp v h1).
+    then Ok (with_heap v (heap_grow h1))
+    else Ok (with_heap v h1).
 
 Definition vm_run_gc (prof : profile) (v : vm) : out vm :=
   vm_run_gc_with prof false (map fst (g_bind v)) v.
